@@ -29,7 +29,8 @@ FIX_TYPES = ['AND', 'OR', 'XOR', 'NAND', 'NOR', 'NXOR', 'GT', 'LT', 'GEQ', 'LEQ'
 def cases(draw, tier):
     big = tier == 'thorough'
     n = draw(st.sampled_from([1, 2, 2, 3, 3, 3] + ([4] if big else [])))
-    m = draw(st.sampled_from([1, 1, 2, 2, 3]))
+    # (now and then more outputs than one decimal digit counts: output positions travel through variable names)
+    m = draw(st.sampled_from([1, 1, 2, 2, 3] * 4 + [10, 11, 12, 13]))
     W = 1 << n
     full = (1 << W) - 1
     kind = draw(st.sampled_from(['random', 'random', 'realisable', 'realisable', 'realisable']))
@@ -300,7 +301,7 @@ def check_synthesis(case):
     ops = _basis_ops(case['basis'])
     codes = [OPS[o] for o in ops]
     finder = cs.CircuitFinderSat(model, G, basis=_basis_arg(case['basis']), need_normalized=case['normalized'])
-    cls = {f'n={n}', f'G={G}', 'basis:' + case['basis']['kind'], 'model:' + case['model_kind']}
+    cls = {f'n={n}', f'G={G}', 'basis:' + case['basis']['kind'], 'model:' + case['model_kind']} | ({'outputs>=11'} if m >= 11 else set())
     if transport != 'none' and case['model_kind'] != 'tt_str' and any(dcs):
         cls.add('dont_care_marks_copied')
     applied = []
@@ -450,5 +451,5 @@ SPEC = {
     'subs': [Sub('synthesis', cases, check_synthesis, {'quick': 2400, 'thorough': 72000}, shrink_quick=False)],
     'required_classes': {'synthesis': ['found', 'no_solution_confirmed', 'fix:first', 'fix:second', 'fix:both', 'forbid_wire',
                                        'basis:custom', 'basis:FULL', 'basis:AIG', 'time_limit', 'invalid_constraint_rejected',
-                                       'model:py_int']},
+                                       'model:py_int', 'outputs>=11']},
 }
